@@ -68,7 +68,7 @@ CHECKS = {
    note='Dominance guarantees non-vanishing diagonal pivots; other symmetric-mode inputs are outside the statement.', ref='5/C16'),
  'C20': dict(tech='differential runtime check against an independent python writer; readers run in child processes (plain and ASan) on generated files',
    text='Files in the three formats with random legal edit descriptors (incl. fields that fill their whole width), random printable title/key text, D/E exponents, optional right-hand-side sections, complex data, rectangular shapes and empty columns are generated from the format definitions and fed to the readers on stdin; dimensions, structure and every value (bit pattern of the correctly rounded printed decimal) must match.',
-   note='Symmetric-type files are a known finding (no expansion); for single precision the value obtained by double rounding through binary64 is accepted as well.', ref='5/C20'),
+   note='Symmetric / skew-symmetric / Hermitian files must come back as the full expansion (the pinned tree returned the stored triangle: repaired, fix 7c17638); the order of entries inside a column of the expansion is free; for single precision the value obtained by double rounding through binary64 is accepted as well.', ref='5/C20'),
 }
 checks = []
 for pid, d in CHECKS.items():
